@@ -23,6 +23,10 @@ type Settings struct {
 	MatchIgnoreCase  bool   `json:"matchIgnoreCase,omitempty"`
 	UseUnderlying    bool   `json:"useUnderlying,omitempty"`
 	EnumExclude      []string `json:"enumExclude,omitempty"` // "pkgkey.Name" of excluded types
+	ZeroBasic        bool     `json:"zeroBasic,omitempty"`    // update:ignoreZeroValueField:basic
+	ZeroStruct       bool     `json:"zeroStruct,omitempty"`   // update:ignoreZeroValueField:struct
+	ZeroNillable     bool     `json:"zeroNillable,omitempty"` // update:ignoreZeroValueField:nillable
+	DefaultUpdate    bool     `json:"defaultUpdate,omitempty"`
 	Wrap             string `json:"wrap,omitempty"` // "" | errors | using (no influence on convertibility)
 	WrapPkg          string `json:"wrapPkg,omitempty"`
 }
@@ -56,6 +60,23 @@ func (s Settings) Lines() []string {
 	}
 	if s.UseUnderlying {
 		l = append(l, "useUnderlyingTypeMethods")
+	}
+	switch {
+	case s.ZeroBasic && s.ZeroStruct && s.ZeroNillable:
+		l = append(l, "update:ignoreZeroValueField")
+	default:
+		if s.ZeroBasic {
+			l = append(l, "update:ignoreZeroValueField:basic")
+		}
+		if s.ZeroStruct {
+			l = append(l, "update:ignoreZeroValueField:struct")
+		}
+		if s.ZeroNillable {
+			l = append(l, "update:ignoreZeroValueField:nillable")
+		}
+	}
+	if s.DefaultUpdate {
+		l = append(l, "default:update")
 	}
 	switch s.Wrap {
 	case "errors":
@@ -139,6 +160,9 @@ type FieldPlan struct {
 	FuncSrc bool     `json:"funcSrc,omitempty"` // FUNC takes the selected source
 	PtrArg  bool     `json:"ptrArg,omitempty"`  // FUNC receives the address of the whole source ('.' in pointer method)
 	Conv    *Plan    `json:"conv,omitempty"`
+	// ZeroGuard "skip": the documented zero-value category of the selected source is
+	// switched on (update:ignoreZeroValueField...), a zero source keeps the target field.
+	ZeroGuard string `json:"zeroGuard,omitempty"`
 }
 
 // EnumPlan is the value mapping of an enum conversion.
@@ -158,6 +182,28 @@ type EnumCase struct {
 type Result struct {
 	Top  *Plan            `json:"top"`
 	Subs map[string]*Plan `json:"subs,omitempty"`
+}
+
+// validDefault checks the signature of a default constructor against the method.
+func (st *state) validDefault(m *Method) *Reject {
+	f := m.Default
+	if f == nil {
+		return nil
+	}
+	if !st.contextsAvailable(f.Contexts) {
+		return reject("context", "default %s needs unavailable context", f.Name)
+	}
+	if f.Err && !m.Err {
+		return reject("error-result", "default %s returns error", f.Name)
+	}
+	if f.Source != nil && key(f.Source) != key(m.Source) {
+		return reject("default-source", "%s != %s", key(f.Source), key(m.Source))
+	}
+	tk := key(m.Target)
+	if key(f.Target) != tk && "*"+key(f.Target) != tk {
+		return reject("default-target", "%s vs %s", key(f.Target), tk)
+	}
+	return nil
 }
 
 // Reject is a negative verdict with a class.
@@ -343,6 +389,9 @@ func (c *Conv) Plan(m *Method) (*Result, *Reject) {
 		}
 		res.Top = &Plan{Op: "call", Func: f.Name, Err: f.Err}
 		return res, nil
+	}
+	if rej := st.validDefault(m); rej != nil {
+		return nil, rej
 	}
 	p, rej := st.rules(m.Source, m.Target)
 	if rej != nil {
@@ -873,6 +922,7 @@ func (st *state) structRule(src, dst *spec.T) (*Plan, *Reject) {
 				return nil, reject("map-func-target", "%s", fc.Func.Name)
 			}
 			fp.Func, fp.FuncErr, fp.FuncSrc, fp.PtrArg = fc.Func.Name, fc.Func.Err, true, ptrArg
+			fp.ZeroGuard = st.zeroGuard(next)
 			plan.Fields = append(plan.Fields, *fp)
 			continue
 		}
@@ -883,12 +933,31 @@ func (st *state) structRule(src, dst *spec.T) (*Plan, *Reject) {
 			return nil, rej
 		}
 		fp.Conv = conv
+		fp.ZeroGuard = st.zeroGuard(next)
 		plan.Fields = append(plan.Fields, *fp)
 	}
 	for name := range defined {
 		return nil, reject("unknown-target-field", "%s", name)
 	}
 	return plan, nil
+}
+
+// zeroGuard says whether the zero-value category of a source of type t is switched on.
+func (st *state) zeroGuard(t *spec.T) string {
+	u := st.under(t)
+	on := false
+	switch u.K {
+	case spec.KBasic:
+		on = st.set.ZeroBasic
+	case spec.KStruct:
+		on = st.set.ZeroStruct
+	case spec.KPtr, spec.KSlice, spec.KMap, spec.KChan, spec.KFunc, spec.KIface:
+		on = st.set.ZeroNillable
+	}
+	if on {
+		return "skip"
+	}
+	return ""
 }
 
 // mapField resolves the source for one target field and returns its type.
